@@ -80,7 +80,9 @@ Proof.
   induction k as [|k IH]; intros fs dd ex g name a H; [exfalso; apply H; reflexivity|].
   cbn [resolve_run] in H. cbn [resolve_run].
   destruct (resolve_g g dd ex (FStr name) a) as [| | |b sub|pat|n fmt|n|n]; try reflexivity.
-  - destruct (fs_glob fs pat) as [|n0 names] eqn:Eg; [reflexivity|].
+  - destruct (fs_get fs (resolved_name dd name)) as [payload|]; [|reflexivity].
+    destruct sub; try reflexivity; apply IH; exact H.
+  - destruct (filter (fun n => negb (fs_isdir fs n)) (fs_glob fs pat)) as [|n0 names] eqn:Eg; [reflexivity|].
     f_equal. apply map_ext_in. intros n Hn. apply IH.
     apply rconcat_nofuel in H. rewrite Forall_forall in H. apply H. apply in_map_iff. exists n. split; [reflexivity|exact Hn].
   - destruct (fs_unpack fs n fmt) as [tmp|]; [|reflexivity]. apply IH. exact H.
@@ -96,6 +98,8 @@ Lemma resolve_run_le : forall k k' fs dd ex g name a, k <= k' -> resolve_run k f
   resolve_run k' fs dd ex g name a = resolve_run k fs dd ex g name a.
 Proof. intros k k' fs dd ex g name a Hle H. replace k' with (k + (k' - k)) by lia. apply resolve_run_fuel. exact H. Qed.
 
+(* the files a pattern finds: what glob reports, minus directories *)
+Definition glob_files (fs : fsys) (pat : str) : list str := filter (fun n => negb (fs_isdir fs n)) (fs_glob fs pat).
 (* ------------------------------------------------------------------ the four branches, with the scope of the archive option *)
 Lemma resolve_run_branches : forall k fs dd ex g name a,
   (forall n, resolve_g g dd ex (FStr name) a = DPlain n -> resolve_run (S k) fs dd ex g name a = ROk [LFile n]) /\
@@ -104,16 +108,50 @@ Lemma resolve_run_branches : forall k fs dd ex g name a,
   (forall n fmt tmp, resolve_g g dd ex (FStr name) a = DArchive n fmt -> fs_unpack fs n fmt = Some tmp ->
      resolve_run (S k) fs dd ex g name a = resolve_run k fs dd ex true (tmp ++ glob_tail) ANone) /\
   (* the files found by a pattern: each resolved again, never expanded again, WITH the caller's archive option *)
-  (forall pat, resolve_g g dd ex (FStr name) a = DGlob pat -> fs_glob fs pat <> [] ->
-     resolve_run (S k) fs dd ex g name a = rconcat (map (fun n => resolve_run k fs dd ex false n a) (fs_glob fs pat))) /\
-  (forall pat, resolve_g g dd ex (FStr name) a = DGlob pat -> fs_glob fs pat = [] -> resolve_run (S k) fs dd ex g name a = RErr).
+  (forall pat, resolve_g g dd ex (FStr name) a = DGlob pat -> glob_files fs pat <> [] ->
+     resolve_run (S k) fs dd ex g name a = rconcat (map (fun n => resolve_run k fs dd ex false n a) (glob_files fs pat))) /\
+  (forall pat, resolve_g g dd ex (FStr name) a = DGlob pat -> glob_files fs pat = [] -> resolve_run (S k) fs dd ex g name a = RErr).
 Proof.
   intros k fs dd ex g name a. repeat split.
   - intros n H. cbn [resolve_run]. rewrite H. reflexivity.
   - intros n d H Hg. cbn [resolve_run]. rewrite H, Hg. reflexivity.
   - intros n fmt tmp H Hu. cbn [resolve_run]. rewrite H, Hu. reflexivity.
-  - intros pat H Hn. cbn [resolve_run]. rewrite H. destruct (fs_glob fs pat); [congruence|reflexivity].
-  - intros pat H Hn. cbn [resolve_run]. rewrite H, Hn. reflexivity.
+  - intros pat H Hn. cbn [resolve_run]. rewrite H. unfold glob_files in *.
+    destruct (filter (fun n => negb (fs_isdir fs n)) (fs_glob fs pat)); [congruence|reflexivity].
+  - intros pat H Hn. cbn [resolve_run]. rewrite H. unfold glob_files in Hn. rewrite Hn. reflexivity.
+Qed.
+
+(* the download branch: data, gzip data decompressed in memory, or an archive saved as <prefix><bname> and resolved again
+   with the caller's archive option *)
+Lemma resolve_run_url : forall k fs dd ex g name a b sub payload,
+  resolve_g g dd ex (FStr name) a = DUrl b sub -> fs_get fs (resolved_name dd name) = Some payload ->
+  resolve_run (S k) fs dd ex g name a =
+    match sub with
+    | UData => ROk [LData payload]
+    | UGz => match fs_gzdec fs payload with None => RErr | Some d => ROk [LData d] end
+    | _ => resolve_run k fs dd ex true (fs_dlprefix fs ++ b) a
+    end.
+Proof. intros k fs dd ex g name a b sub payload Hd Hg. cbn [resolve_run]. rewrite Hd, Hg. destruct sub; reflexivity. Qed.
+
+Lemma startswith_app_r : forall p s x, startswith p s = true -> startswith p (s ++ x) = true.
+Proof.
+  induction p as [|a p IH]; intros s x H; [reflexivity|]. destruct s as [|b s]; [discriminate H|].
+  cbn [startswith app] in *. apply andb_prop in H. destruct H as [H1 H2]. rewrite H1. cbn [andb]. apply IH. exact H2.
+Qed.
+Lemma endswith_app_l : forall p x s, endswith p s = true -> endswith p (x ++ s) = true.
+Proof. intros p x s H. unfold endswith in *. rewrite rev_app_distr. apply startswith_app_r. exact H. Qed.
+(* what the URL row announces for an archive download (unpack with the given type) is what happens to the saved file:
+   its name ends like the URL's base name, so it is an archive by the same test *)
+Lemma url_saved_archive : forall dd ex prefix b a,
+  plain_name (prefix ++ b) = true -> wants_archive a b = true ->
+  resolve_g true dd ex (FStr (prefix ++ b)) a = DArchive (prefix ++ b) (arch_fmt a).
+Proof.
+  intros dd ex prefix b a Hp Hw. rewrite resolve_g_true, (resolve_spec dd ex (prefix ++ b) a Hp).
+  assert (E : archive_requested a || has_archive_ext (prefix ++ b) = true).
+  { unfold wants_archive in Hw. apply orb_true_iff in Hw. apply orb_true_iff. destruct Hw as [Hw|Hw]; [left; exact Hw|right].
+    unfold has_archive_ext. apply existsb_exists in Hw. destruct Hw as [e [He1 He2]]. apply existsb_exists. exists e.
+    split; [exact He1|apply endswith_app_l; exact He2]. }
+  rewrite E. reflexivity.
 Qed.
 
 (* names that need nothing: no stdin / URL / example prefix, no archive or gzip extension *)
@@ -133,9 +171,9 @@ Proof.
 Qed.
 (* a pattern over simple files: every match is read, in the order glob reports them *)
 Lemma resolve_run_glob_concat : forall k fs dd ex g pat a,
-  resolve_g g dd ex (FStr pat) a = DGlob pat -> fs_glob fs pat <> [] ->
-  forallb (simple_name dd ex a) (fs_glob fs pat) = true ->
-  resolve_run (S (S k)) fs dd ex g pat a = ROk (map LFile (fs_glob fs pat)).
+  resolve_g g dd ex (FStr pat) a = DGlob pat -> glob_files fs pat <> [] ->
+  forallb (simple_name dd ex a) (glob_files fs pat) = true ->
+  resolve_run (S (S k)) fs dd ex g pat a = ROk (map LFile (glob_files fs pat)).
 Proof.
   intros k fs dd ex g pat a Hd Hn Hs.
   destruct (resolve_run_branches (S k) fs dd ex g pat a) as [_ [_ [_ [Hg _]]]].
@@ -145,9 +183,9 @@ Qed.
 Lemma resolve_run_flat_archive : forall k fs dd ex g name a n fmt tmp,
   resolve_g g dd ex (FStr name) a = DArchive n fmt -> fs_unpack fs n fmt = Some tmp ->
   resolve_g true dd ex (FStr (tmp ++ glob_tail)) ANone = DGlob (tmp ++ glob_tail) ->
-  fs_glob fs (tmp ++ glob_tail) <> [] ->
-  forallb (simple_name dd ex ANone) (fs_glob fs (tmp ++ glob_tail)) = true ->
-  resolve_run (S (S (S k))) fs dd ex g name a = ROk (map LFile (fs_glob fs (tmp ++ glob_tail))).
+  glob_files fs (tmp ++ glob_tail) <> [] ->
+  forallb (simple_name dd ex ANone) (glob_files fs (tmp ++ glob_tail)) = true ->
+  resolve_run (S (S (S k))) fs dd ex g name a = ROk (map LFile (glob_files fs (tmp ++ glob_tail))).
 Proof.
   intros k fs dd ex g name a n fmt tmp Hd Hu Hg Hn Hs.
   destruct (resolve_run_branches (S (S k)) fs dd ex g name a) as [_ [_ [Ha _]]].
@@ -159,11 +197,17 @@ Inductive resolves (fs : fsys) (dd ex : str) : bool -> str -> archive_arg -> lis
 | R_plain : forall g name a n, resolve_g g dd ex (FStr name) a = DPlain n -> resolves fs dd ex g name a [LFile n]
 | R_gz : forall g name a n d, resolve_g g dd ex (FStr name) a = DGz n -> fs_gunzip fs n = Some d -> resolves fs dd ex g name a [LData d]
 | R_stdin : forall g name a, resolve_g g dd ex (FStr name) a = DStdin -> resolves fs dd ex g name a [LStdin]
-| R_url : forall g name a b sub, resolve_g g dd ex (FStr name) a = DUrl b sub -> resolves fs dd ex g name a [LUrl b sub]
+| R_url_data : forall g name a b payload, resolve_g g dd ex (FStr name) a = DUrl b UData ->
+    fs_get fs (resolved_name dd name) = Some payload -> resolves fs dd ex g name a [LData payload]
+| R_url_gz : forall g name a b payload d, resolve_g g dd ex (FStr name) a = DUrl b UGz ->
+    fs_get fs (resolved_name dd name) = Some payload -> fs_gzdec fs payload = Some d -> resolves fs dd ex g name a [LData d]
+| R_url_archive : forall g name a b sub payload l, resolve_g g dd ex (FStr name) a = DUrl b sub ->
+    (sub = UArchiveGlob \/ exists f, sub = UArchiveUnpack f) -> fs_get fs (resolved_name dd name) = Some payload ->
+    resolves fs dd ex true (fs_dlprefix fs ++ b) a l -> resolves fs dd ex g name a l
 | R_archive : forall g name a n fmt tmp l, resolve_g g dd ex (FStr name) a = DArchive n fmt -> fs_unpack fs n fmt = Some tmp ->
     resolves fs dd ex true (tmp ++ glob_tail) ANone l -> resolves fs dd ex g name a l
-| R_glob : forall g name a pat ls, resolve_g g dd ex (FStr name) a = DGlob pat -> fs_glob fs pat <> [] ->
-    resolves_all fs dd ex (fs_glob fs pat) a ls -> resolves fs dd ex g name a (concat ls)
+| R_glob : forall g name a pat ls, resolve_g g dd ex (FStr name) a = DGlob pat -> glob_files fs pat <> [] ->
+    resolves_all fs dd ex (glob_files fs pat) a ls -> resolves fs dd ex g name a (concat ls)
 with resolves_all (fs : fsys) (dd ex : str) : list str -> archive_arg -> list (list leaf) -> Prop :=
 | RA_nil : forall a, resolves_all fs dd ex [] a []
 | RA_cons : forall n t a l ls, resolves fs dd ex false n a l -> resolves_all fs dd ex t a ls -> resolves_all fs dd ex (n :: t) a (l :: ls).
@@ -177,10 +221,15 @@ Proof.
   cbn [resolve_run] in H.
   destruct (resolve_g g dd ex (FStr name) a) as [| | |b sub|pat|n fmt|n|n] eqn:Ed; try discriminate H.
   - inversion H. apply R_stdin. exact Ed.
-  - inversion H. eapply R_url. exact Ed.
-  - destruct (fs_glob fs pat) as [|n0 names] eqn:Eg; [discriminate H|].
+  - destruct (fs_get fs (resolved_name dd name)) as [payload|] eqn:Eget; [|discriminate H].
+    destruct sub as [|f| |].
+    + eapply R_url_archive; [exact Ed|left; reflexivity|exact Eget|apply IH; exact H].
+    + eapply R_url_archive; [exact Ed|right; exists f; reflexivity|exact Eget|apply IH; exact H].
+    + destruct (fs_gzdec fs payload) as [d|] eqn:Ez; [|discriminate H]. inversion H. eapply R_url_gz; [exact Ed|exact Eget|exact Ez].
+    + inversion H. eapply R_url_data; [exact Ed|exact Eget].
+  - destruct (filter (fun n => negb (fs_isdir fs n)) (fs_glob fs pat)) as [|n0 names] eqn:Eg; [discriminate H|].
     apply rconcat_ok in H. destruct H as [ls [E1 E2]]. subst l.
-    eapply R_glob; [exact Ed|rewrite Eg; discriminate|]. rewrite Eg.
+    eapply R_glob; [exact Ed|unfold glob_files; rewrite Eg; discriminate|]. unfold glob_files. rewrite Eg.
     clear Eg Ed. revert ls E1. generalize (n0 :: names) as ns.
     induction ns as [|x t IHt]; intros ls E1; destruct ls as [|y ys]; try discriminate E1; [constructor|].
     cbn [map] in E1. inversion E1. constructor; [apply IH; assumption|apply IHt; assumption].
@@ -200,11 +249,15 @@ Proof.
   - intros g name a n Ed. exists 1. intros [|k'] Hk; [lia|]. cbn [resolve_run]. rewrite Ed. reflexivity.
   - intros g name a n d Ed Eg. exists 1. intros [|k'] Hk; [lia|]. cbn [resolve_run]. rewrite Ed, Eg. reflexivity.
   - intros g name a Ed. exists 1. intros [|k'] Hk; [lia|]. cbn [resolve_run]. rewrite Ed. reflexivity.
-  - intros g name a b sub Ed. exists 1. intros [|k'] Hk; [lia|]. cbn [resolve_run]. rewrite Ed. reflexivity.
+  - intros g name a b payload Ed Eget. exists 1. intros [|k'] Hk; [lia|]. cbn [resolve_run]. rewrite Ed, Eget. reflexivity.
+  - intros g name a b payload d Ed Eget Ez. exists 1. intros [|k'] Hk; [lia|]. cbn [resolve_run]. rewrite Ed, Eget, Ez. reflexivity.
+  - intros g name a b sub payload l Ed Hsub Eget _ [k Hk]. exists (S k). intros [|k'] Hle; [lia|]. cbn [resolve_run]. rewrite Ed, Eget.
+    destruct Hsub as [->|[f ->]]; apply Hk; lia.
   - intros g name a n fmt tmp l Ed Eu _ [k Hk]. exists (S k). intros [|k'] Hle; [lia|]. cbn [resolve_run]. rewrite Ed, Eu.
     apply Hk. lia.
   - intros g name a pat ls Ed Hn _ [k Hk]. exists (S k). intros [|k'] Hle; [lia|]. cbn [resolve_run]. rewrite Ed.
-    destruct (fs_glob fs pat) as [|n0 names] eqn:Eg; [congruence|]. rewrite (Hk k') by lia. apply rconcat_map_ok.
+    unfold glob_files in *.
+    destruct (filter (fun n => negb (fs_isdir fs n)) (fs_glob fs pat)) as [|n0 names] eqn:Eg; [congruence|]. rewrite (Hk k') by lia. apply rconcat_map_ok.
   - intros a. exists 0. intros k' _. reflexivity.
   - intros n t a l ls _ [k1 H1] _ [k2 H2]. exists (Nat.max k1 k2). intros k' Hle. cbn [map].
     rewrite (H1 k') by lia. rewrite (H2 k') by lia. reflexivity.
@@ -222,16 +275,29 @@ Qed.
 (* non-vacuity: a pattern over a plain file, a gzip file, a file whose name contains wildcard characters and an archive that
    holds a gzip file and a nested archive; archive= applies to the outer level only *)
 Definition demo_fs : fsys :=
-  fsys_of [ (bs "d/*"%bs, [bs "d/a.fa"%bs; bs "d/b.fa.gz"%bs; bs "d/c[1].fa"%bs; bs "d/x.zip"%bs]);
-            (bs "<d/x.zip>/**/*.*"%bs, [bs "<d/x.zip>/m.fa.gz"%bs; bs "<d/x.zip>/in.tar"%bs]);
-            (bs "<<d/x.zip>/in.tar>/**/*.*"%bs, [bs "<<d/x.zip>/in.tar>/deep.fa"%bs]);
-            (bs "<blob>/**/*.*"%bs, [bs "<blob>/x.zip"%bs]) ]
+  fsys_of [ (bs "d/*"%bs, [bs "d/a.fa"%bs; bs "d/b.fa.gz"%bs; bs "d/c[1].fa"%bs; bs "d/sub.d"%bs; bs "d/x.zip"%bs]);
+            (bs "<d/x.zip>/**/*"%bs, [bs "<d/x.zip>/m.fa.gz"%bs; bs "<d/x.zip>/in.tar"%bs]);
+            (bs "<<d/x.zip>/in.tar>/**/*"%bs, [bs "<<d/x.zip>/in.tar>/v1.0"%bs; bs "<<d/x.zip>/in.tar>/v1.0/deep"%bs]);
+            (bs "<blob>/**/*"%bs, [bs "<blob>/x.zip"%bs]) ]
+          [ bs "d/sub.d"%bs; bs "<<d/x.zip>/in.tar>/v1.0"%bs ]
           [ (bs "d/x.zip"%bs, (None, Some (bs "<d/x.zip>"%bs))); (bs "<d/x.zip>/in.tar"%bs, (None, Some (bs "<<d/x.zip>/in.tar>"%bs)));
             (bs "blob"%bs, (Some (bs "zip"%bs), Some (bs "<blob>"%bs))); (bs "<blob>/x.zip"%bs, (None, None)) ]
           [ (bs "d/b.fa.gz"%bs, bs "B"%bs); (bs "<d/x.zip>/m.fa.gz"%bs, bs "M"%bs) ].
+Definition demo_url_fs : fsys :=
+  fsys_url [ (bs "<dl>x.zip/**/*"%bs, [bs "<dl>x.zip/m.fa"%bs]) ] []       (* the unpack directory is named like the archive here *)
+           [ (bs "<dl>x.zip"%bs, (None, Some (bs "<dl>x.zip"%bs))) ] []
+           [ (bs "http://h/p/x.zip?dl=1"%bs, bs "PK"%bs); (bs "http://h/a.fa.gz"%bs, bs "GZ"%bs); (bs "http://h/a.fa"%bs, bs ">a"%bs) ]
+           [ (bs "GZ"%bs, bs ">z"%bs) ] (bs "<dl>"%bs).
+Lemma witness_resolve_url :
+  resolve_run 5 demo_url_fs [] [] true (bs "http://h/p/x.zip?dl=1"%bs) ANone = ROk [LFile (bs "<dl>x.zip/m.fa"%bs)] /\
+  resolve_run 5 demo_url_fs [] [] true (bs "http://h/a.fa.gz"%bs) ANone = ROk [LData (bs ">z"%bs)] /\
+  resolve_run 5 demo_url_fs [] [] true (bs "http://h/a.fa"%bs) ANone = ROk [LData (bs ">a"%bs)] /\
+  resolve_run 5 demo_url_fs [] [] true (bs "http://h/a.fa"%bs) (AStr (bs "gz"%bs)) = RErr /\
+  resolve_run 5 demo_url_fs [] [] true (bs "http://h/missing"%bs) ANone = RErr.
+Proof. vm_compute. repeat split; reflexivity. Qed.
 Lemma witness_resolve_run :
   resolve_run 6 demo_fs [] [] true (bs "d/*"%bs) ANone =
-    ROk [LFile (bs "d/a.fa"%bs); LData (bs "B"%bs); LFile (bs "d/c[1].fa"%bs); LData (bs "M"%bs); LFile (bs "<<d/x.zip>/in.tar>/deep.fa"%bs)] /\
+    ROk [LFile (bs "d/a.fa"%bs); LData (bs "B"%bs); LFile (bs "d/c[1].fa"%bs); LData (bs "M"%bs); LFile (bs "<<d/x.zip>/in.tar>/v1.0/deep"%bs)] /\
   resolve_run 3 demo_fs [] [] true (bs "d/*"%bs) ANone = RFuel /\
   resolve_run 9 demo_fs [] [] true (bs "blob"%bs) (AStr (bs "zip"%bs)) = RErr /\
   resolve_run 9 demo_fs [] [] true (bs "nothing*"%bs) ANone = RErr /\
